@@ -53,9 +53,10 @@ Theorem fine_exclusive_window_safe_partial : forall s i q k,
                 fgot q' = (fgot q ++ vs)%list /\ own (frid i) vs.
 Proof. exact fine_window_safe_l. Qed.
 Print Assumptions fine_exclusive_window_safe_partial.
-(* "no request crashes" is REFUTED for overlapping requests: A parks inside the fill, B's ServeHTTP resets
-   the caches, A resumes and dereferences nil (deterministic witness of load:panic:superglobal-cache) *)
-Theorem fine_no_crash_refuted : exists progs sched i q,
-  nth_error (freqs (frun (finit progs) sched)) i = Some q /\ fcrashed q = true.
-Proof. exact fine_crash_witness_l. Qed.
-Print Assumptions fine_no_crash_refuted.
+(* no request crashes, under any schedule — after the repair of the fill (snapshot, build locally, publish).
+   Before it: A parks inside the fill, B's ServeHTTP resets the caches, A resumes and dereferences nil
+   (schedule 0,0,1,0; reproduced deterministically through the yield hook, then fixed) *)
+Theorem fine_never_crashes : forall progs sched j q,
+  nth_error (freqs (frun (finit progs) sched)) j = Some q -> fcrashed q = false.
+Proof. exact fine_never_crashes_l. Qed.
+Print Assumptions fine_never_crashes.
